@@ -54,6 +54,28 @@ def quotasWhy (afterPrepare : Pop W) (n : Nat) : String :=
   else if afterPrepare.species.any (fun s => s.orgs.any (·.toEliminate)) then "organism marked for elimination still present"
   else ""
 
+/-- C09, first clause, on the implementation's own numbers after the preparation phase: the expected offspring of the
+    organisms are proportional to their shared, age-adjusted fitness values with one population-wide factor (1 / mean) -
+    `e_i * f_j = e_j * f_i` up to a relative 1e-9 for the organisms left as parents - and an organism with a positive
+    adjusted fitness has a positive expectation (the population mean is then positive). Independent of HOW the
+    adjustment is computed. -/
+def expectedWhy (afterPrepare : Pop W) : String :=
+  let orgs := afterPrepare.species.flatMap (·.orgs)
+  match orgs.find? (fun x => lt zero x.fitness && !lt zero x.expectedOffspring) with
+  | some x => "organism " ++ toString x.uid ++ ": positive shared fitness but no expected offspring (expected offspring is not fitness / population mean)"
+  | none =>
+    match orgs.find? (fun x => lt zero x.fitness) with
+    | none => ""
+    | some r =>
+      let tol := ofDec 1 9
+      match orgs.find? (fun x =>
+          let a := mul x.expectedOffspring r.fitness
+          let b := mul r.expectedOffspring x.fitness
+          let d := abs (sub a b)
+          lt (mul tol (add (abs a) (abs b))) d) with
+      | some x => "organism " ++ toString x.uid ++ ": expected offspring not proportional to the shared fitness (ratio differs from organism " ++ toString r.uid ++ "'s)"
+      | none => ""
+
 /-- C09: only the top floor(survival_thresh*n)+1 organisms of a species (n = its size before the turnover) remain available
     as parents after the preparation phase -/
 def parentsWhy (o : EpochOpts W) (before afterPrepare : Pop W) : String :=
